@@ -59,6 +59,36 @@ Definition same_res (r g : list stmt) : bool :=
 
 Definition mark_all (ws : list ident) (te : tenv) : tenv := fold_right (fun x acc => (x, TMark) :: acc) te ws.
 
+(* len(name) INSIDE a translated expression.  ConstEnv.tsimple keeps the right-hand side of an assignment / augmented
+   assignment and the argument of append / remove symbolic (residual = the statement itself); the real translation
+   (_to_c_expr) folds every len(name) sub-term of such an expression through the constant environment, exactly like
+   the statement-level mon.write(len(name)).  Where the environment is right the two coincide (inside is_fresh it
+   always is); for the flow guard each of these sub-terms is one more fold site: the transpiler's environment and the
+   ghost environment must give it the same length, or both leave it to run time. *)
+Fixpoint len_names (e : pexpr) : list ident :=
+  let fix any (l : list pexpr) : list ident := match l with [] => [] | x :: r => len_names x ++ any r end in
+  match e with
+  | EBin _ a b => len_names a ++ len_names b
+  | EUn _ a => len_names a
+  | EBoolOp _ vs => any vs
+  | ECompare l _ rs => len_names l ++ any rs
+  | EIfExp c a b => len_names c ++ len_names a ++ len_names b
+  | EJoined ps => any ps
+  | EFmt _ v => len_names v
+  | ECall f args _ =>
+      (if text_eqb f n_len then match args with [EName x] => [x] | _ => [] end else []) ++ any args
+  | EMethod o _ args _ => len_names o ++ any args
+  | EList es | ETuple es => any es
+  | ESubscript v i => len_names v ++ len_names i
+  | _ => []
+  end.
+Definition optz_eqb (a b : option Z) : bool :=
+  match a, b with Some x, Some y => Z.eqb x y | None, None => true | _, _ => false end.
+Definition lens_agree (c1 c2 : cenv) (e : pexpr) : bool :=
+  forallb (fun x => optz_eqb (literal_length c1 (EName x)) (literal_length c2 (EName x))) (len_names e).
+Definition stmt_exprs (s : stmt) : list pexpr :=
+  match s with SAssign _ e | SAppend _ e | SRemove _ e | SAug _ _ e => [e] | _ => [] end.
+
 (* transpiler dict, transpiler store, residual, ghost dict, ghost store, flag *)
 Definition fres := option (tenv * store * list stmt * tenv * store * bool).
 
@@ -66,7 +96,9 @@ Definition csimple (s : stmt) (te : tenv) (st : store) (ge : tenv) (gst : store)
   match tsimple s te st with
   | Some (te1, st1, r1, _) =>
       match tsimple s ge gst with
-      | Some (ge1, gst1, g1, gf) => Some (te1, st1, r1, ge1, gst1, gf && same_res r1 g1)
+      | Some (ge1, gst1, g1, gf) =>
+          Some (te1, st1, r1, ge1, gst1,
+                gf && forallb (lens_agree (view st te) (view gst ge)) (stmt_exprs s) && same_res r1 g1)
       | None => Some (te1, st1, r1, ge, gst, false)        (* accepted only because of a binding that may be stale *)
       end
   | None => None
